@@ -234,6 +234,17 @@ func (l *lexer) next(allowRegex bool) token {
 		return l.newToken(tt)
 	}
 
+	if lookupSymbol2(ch) != nil {
+		// The first character of a 2-character symbol that is
+		// not a symbol in its own right (i.e. '!' or '~') and
+		// is not followed by its partner. It stops a name just
+		// like a symbol does, so return it as a one-character
+		// name. Don't fall through to the backup call below:
+		// the failed look-ahead has already overwritten the
+		// width of the current rune.
+		return l.newToken(typeName)
+	}
+
 	if ch == '"' || ch == '\'' {
 		l.ignore()
 		return l.scanString(ch)
